@@ -4,7 +4,7 @@
 # assumed positivity) in evidence/coqchk_summary.txt.  Thorough-tier aid: minutes per module.
 cd /verif/coq || exit 2
 OUT=/verif/evidence/coqchk_summary.txt
-TMP=$(mktemp -d /verif/scratch/coqchk.XXXX)
+mkdir -p /verif/scratch; TMP=$(mktemp -d /verif/scratch/coqchk.XXXX)
 ls Props/C*.vo | sed 's|Props/\(C[0-9]*\)\.vo|\1|' | sort > $TMP/mods
 cat $TMP/mods | xargs -P ${COQCHK_JOBS:-6} -I{} sh -c "timeout 5400 coqchk -silent -o -Q . Cog Cog.Props.{} > $TMP/{}.log 2>&1; echo \$? > $TMP/{}.rc"
 {
